@@ -218,7 +218,8 @@ def find(prop, quick=True, seed=0, limit=None):
     if prop == 'C12':
         return find_c12(quick, seed)
     jobs = grid(prop, quick, seed)
-    if limit:
+    if limit and len(jobs) > limit:
+        random.Random(seed).shuffle(jobs)
         jobs = jobs[:limit]
     CH = 2000
     for k in range(0, len(jobs), CH):
